@@ -23,11 +23,12 @@ def scratch_copy():
     t = tempfile.mkdtemp(prefix="vfmut-")
     dst = os.path.join(t, "repo")
     os.makedirs(dst)
-    files = subprocess.check_output(["git", "-C", "/repo", "ls-files"], text=True).split("\n") + ["Cargo.lock"]
+    src = os.environ.get("VERIF_SELFTEST_SRC", "/repo")   # development only: a pristine copy while /repo is temporarily patched
+    files = subprocess.check_output(["git", "-C", src, "ls-files"], text=True).split("\n") + ["Cargo.lock"]
     for f in files:
         if not f:
             continue
-        s = os.path.join("/repo", f)
+        s = os.path.join(src, f)
         d = os.path.join(dst, f)
         os.makedirs(os.path.dirname(d), exist_ok=True)
         if os.path.exists(s):
